@@ -99,6 +99,30 @@ pub fn roundtrips(enc: &'static Encoding, b: &[u8]) -> bool {
     !unmappable && &*back == b
 }
 
+/// Document prefixes with a charset declaration (for configurations with
+/// adjust_charset_on_meta_tag): (prefix, label of the encoding in effect after it, if it switches).
+pub const MCTX: &[(&str, Option<&str>)] = &[
+    ("<meta charset=windows-1252>", Some("windows-1252")),
+    ("<meta charset=\"shift_jis\">x", Some("shift_jis")),
+    ("<meta http-equiv=\"Content-Type\" content=\"text/html; charset=windows-1251\">", Some("windows-1251")),
+    ("\u{e9}<meta charset=koi8-r>", Some("koi8-r")),
+    ("<meta charset=utf-16>", None),
+    ("<meta http-equiv=\"Content-Type\" content=\"text/html; charset=utf-16le\">", None),
+    ("<meta charset=utf-8><meta charset=gbk>", None),
+];
+
+/// Round-trip test for a document that starts with one of the MCTX prefixes: the prefix in the
+/// initial encoding, the rest in the encoding the declaration switches to.
+pub fn roundtrips_meta(enc0: &'static Encoding, b: &[u8]) -> bool {
+    for (pre, label) in MCTX {
+        if b.starts_with(pre.as_bytes()) {
+            let enc1 = label.and_then(|l| Encoding::for_label(l.as_bytes())).unwrap_or(enc0);
+            return roundtrips(enc0, &b[..pre.len()]) && roundtrips(enc1, &b[pre.len()..]);
+        }
+    }
+    roundtrips(enc0, b)
+}
+
 /// Substitute the UTF-8 `é` placeholder by a valid character of the target encoding.
 pub fn adapt_to_encoding(input: &[u8], enc: &'static Encoding) -> Vec<u8> {
     if enc == encoding_rs::UTF_8 {
@@ -151,6 +175,8 @@ pub enum Space {
     CtxBytes { max: usize },
     /// every foreign-content context of FCTX followed by every FFRAGS-sequence
     Foreign { max: usize },
+    /// every charset-declaring prefix of MCTX followed by every F-sequence
+    MetaFrags { k: usize, max: usize },
 }
 
 /// Foreign-content contexts (SVG / MathML, and HTML inside their integration points).
@@ -192,6 +218,7 @@ impl Space {
             Space::CtxFrags { k, max } => CTX.len() * count_upto(k, max),
             Space::CtxBytes { max } => CTX.len() * count_upto(B16.len(), max),
             Space::Foreign { max } => FCTX.len() * count_upto(FFRAGS.len(), max),
+            Space::MetaFrags { k, max } => MCTX.len() * count_upto(k, max),
         }
     }
     pub fn render(&self, i: usize, idx: &mut Vec<usize>, out: &mut Vec<u8>) {
@@ -214,6 +241,11 @@ impl Space {
                 render_bytes(B16, idx, out);
                 out.splice(0..0, CTX[i % CTX.len()].bytes());
             }
+            Space::MetaFrags { k, .. } => {
+                seq_at(i / MCTX.len(), k, idx);
+                render_frags(F, idx, out);
+                out.splice(0..0, MCTX[i % MCTX.len()].0.bytes());
+            }
             Space::Foreign { .. } => {
                 seq_at(i / FCTX.len(), FFRAGS.len(), idx);
                 out.clear();
@@ -231,6 +263,7 @@ impl Space {
             Space::CtxFrags { k, max } => format!("CTXxF{k}<={max}"),
             Space::CtxBytes { max } => format!("CTXxB16<={max}"),
             Space::Foreign { max } => format!("FCTXxFF<={max}"),
+            Space::MetaFrags { k, max } => format!("MCTXxF{k}<={max}"),
         }
     }
 }
